@@ -1209,6 +1209,273 @@ theorem applySnapshotAux_spec (ms : List GlobalMeta) (snap : Snapshot) (n : Nat)
         · exact ih s hnd2
       · exact ih s hnd2
 
+/-! ### cold restart versus build: observation by path is determined by the declarations -/
+
+def Val.isInst : Val → Bool
+  | .inst _ => true
+  | _ => false
+
+theorem obs_member_of_not_inst (s : Storage) (v : Val) (k : Nat) (h : v.isInst = false) :
+    (match some v with
+     | some (.inst j) => (s.getInstVar j k).map obsVal
+     | _ => none) = none := by
+  cases v <;> simp_all [Val.isInst]
+
+/-- Storage-level `readGlobalPath`. -/
+def readGP (s : Storage) (g : Nat) (member : Option Nat) : Option Val :=
+  match member with
+  | none => (s.getGlobal g).map obsVal
+  | some m =>
+    match s.getGlobal g with
+    | some (.inst j) => (s.getInstVar j m).map obsVal
+    | _ => none
+
+/-- Storage-level `readProgPath`. -/
+def readPP (s : Storage) (p v : Nat) (member : Option Nat) : Option Val :=
+  match s.getGlobal p with
+  | some (.inst id) =>
+    match member with
+    | none => (s.getInstVar id v).map obsVal
+    | some m =>
+      match s.getInstVar id v with
+      | some (.inst j) => (s.getInstVar j m).map obsVal
+      | _ => none
+  | _ => none
+
+theorem readGlobalPath_eq (rt : Runtime) (g : Nat) (member : Option Nat) :
+    rt.readGlobalPath g member = readGP rt.storage g member := rfl
+
+theorem readProgPath_eq (rt : Runtime) (p v : Nat) (member : Option Nat) :
+    rt.readProgPath p v member = readPP rt.storage p v member := rfl
+
+/-- What a declared global shows after initialisation, from its declaration alone. -/
+def expG (fbs : List FbDef) (m : GlobalMeta) (member : Option Nat) : Option Val :=
+  match m.init, member with
+  | .value v, none => some (obsVal v)
+  | .value _, some _ => none
+  | .fb _, none => some (.inst 0)
+  | .fb ty, some k =>
+    match findFb fbs ty with
+    | some fb => (aget (membersMap [] fb.members) k).map obsVal
+    | none => none
+
+/-- What a declared program variable shows after initialisation. -/
+def expP (fbs : List FbDef) (d : VarDef) (member : Option Nat) : Option Val :=
+  match d.init, member with
+  | .plain v, none => some (obsVal v)
+  | .plain _, some _ => none
+  | .ext, _ => none
+  | .fb _, none => some (.inst 0)
+  | .fb ty, some k =>
+    match findFb fbs ty with
+    | some fb => (aget (membersMap [] fb.members) k).map obsVal
+    | none => none
+
+/-- Initial values are values, not instance handles (the compiler never produces such a
+declaration). -/
+structure PlainInits (metas : List GlobalMeta) (progs : List ProgDef) : Prop where
+  globals : ∀ m v, m ∈ metas → m.init = .value v → v.isInst = false
+  vars : ∀ p d v, p ∈ progs → d ∈ p.vars → d.init = .plain v → v.isInst = false
+
+/-- After the third and fourth loop (cold), every path shows what the declarations say —
+independently of the storage the loops started from. -/
+theorem cold_paths (fbs : List FbDef) (metas : List GlobalMeta) (progs : List ProgDef)
+    (s0 s1 s2 : Storage)
+    (h1 : resetGlobals fbs false [] s0 metas = .ok s1) (h2 : recreatePrograms fbs s1 progs = .ok s2)
+    (hg : (metas.map (·.name)).Nodup) (hp : (progs.map (·.name)).Nodup)
+    (hv : ∀ p, p ∈ progs → (p.vars.map (·.name)).Nodup)
+    (hdis : ∀ m p, m ∈ metas → p ∈ progs → m.name ≠ p.name) (hpl : PlainInits metas progs) :
+    (∀ m member, m ∈ metas → readGP s2 m.name member = expG fbs m member) ∧
+    (∀ p d member, p ∈ progs → d ∈ p.vars → d.init ≠ .ext →
+      readPP s2 p.name d.name member = expP fbs d member) := by
+  obtain ⟨_, _, g3⟩ := resetGlobals_spec fbs false [] metas s0 s1 h1 hg
+  obtain ⟨t1, t2, t3⟩ := recreatePrograms_spec fbs progs s1 s2 h2 hp hv
+  constructor
+  · intro m member hm
+    have hnot : m.name ∉ progs.map (·.name) := by
+      intro hc
+      obtain ⟨p, hpp, hpn⟩ := List.mem_map.1 hc
+      exact hdis m p hm hpp hpn.symm
+    have hgl : s2.getGlobal m.name = s1.getGlobal m.name := t2 _ hnot
+    have post := g3 m hm
+    unfold GlobalPost at post
+    simp only [Bool.false_and, Bool.false_eq_true, if_false] at post
+    unfold readGP expG
+    rw [hgl]
+    cases hi : m.init with
+    | value v =>
+      simp only [hi] at post
+      rw [post]
+      cases member with
+      | none => simp
+      | some k =>
+        simp only
+        exact obs_member_of_not_inst s2 v k (hpl.globals m v hm hi)
+    | fb ty =>
+      simp only [hi] at post
+      obtain ⟨j, fb, a1, a2, a3, a4, a5⟩ := post
+      rw [a1]
+      cases member with
+      | none => simp [obsVal]
+      | some k =>
+        simp only [a4]
+        have : s2.getInstVar j k = aget (membersMap [] fb.members) k := by
+          simp [Storage.getInstVar, t1.old j a3, a5]
+        rw [this]
+  · intro p d member hpp hd hne
+    obtain ⟨id, q1, q2, q3, q4, q5⟩ := t3 p hpp
+    have post := q5 d hd
+    unfold readPP expP
+    rw [q1]
+    simp only
+    cases hi : d.init with
+    | plain v =>
+      simp only [hi] at post
+      rw [post]
+      cases member with
+      | none => simp
+      | some k =>
+        simp only
+        exact obs_member_of_not_inst s2 v k (hpl.vars p d v hpp hd hi)
+    | ext => exact absurd hi hne
+    | fb ty =>
+      simp only [hi] at post
+      obtain ⟨j, fb, a1, a2, a3, a4, a5⟩ := post
+      rw [a1]
+      cases member with
+      | none => simp [obsVal]
+      | some k =>
+        simp only [a4]
+        have : s2.getInstVar j k = aget (membersMap [] fb.members) k := by
+          simp [Storage.getInstVar, a5]
+        rw [this]
+
+/-! ### the build sequence, storage part -/
+
+def GlobalDecl.toMeta (g : GlobalDecl) : GlobalMeta := { name := g.name, retain := g.retain, init := g.init }
+
+theorem buildGlobals_eq (fbs : List FbDef) (gs : List GlobalDecl) :
+    ∀ (s : Storage), buildGlobals fbs s gs = resetGlobals fbs false [] s (gs.map GlobalDecl.toMeta) := by
+  induction gs with
+  | nil => intro s; rfl
+  | cons g rest ih =>
+    intro s
+    simp only [buildGlobals, List.map_cons, resetGlobals, Bool.false_and, Bool.false_eq_true, if_false,
+      GlobalDecl.toMeta]
+    cases hi : g.init with
+    | value v => simp only; exact ih _
+    | fb ty =>
+      simp only
+      cases createFbInstance fbs s ty with
+      | error e => rfl
+      | ok r => obtain ⟨s1, id⟩ := r; simp only; exact ih _
+
+theorem buildPrograms_storage (fbd : List FbDecl) (fbs : List FbDef) (ps : List ProgDecl) :
+    ∀ (s s' : Storage) (bs : List IoBinding), buildPrograms fbd fbs s ps = .ok (s', bs) →
+      recreatePrograms fbs s (ps.map ProgDecl.toDef) = .ok s' := by
+  induction ps with
+  | nil =>
+    intro s s' bs h
+    simp only [buildPrograms] at h
+    injection h with h; injection h with h1 _
+    subst h1; rfl
+  | cons p rest ih =>
+    intro s s' bs h
+    simp only [buildPrograms] at h
+    simp only [List.map_cons, recreatePrograms]
+    cases hc : createProgramInstance fbs s p.toDef with
+    | error e => rw [hc] at h; cases h
+    | ok r =>
+      obtain ⟨s1, id⟩ := r
+      rw [hc] at h
+      dsimp only at h ⊢
+      cases hb : buildPrograms fbd fbs (s1.setGlobal p.name (.inst id)) rest with
+      | error e => rw [hb] at h; cases h
+      | ok r2 =>
+        obtain ⟨s3, bs'⟩ := r2
+        rw [hb] at h
+        dsimp only at h
+        injection h with h; injection h with h1 _
+        subst h1
+        exact ih _ _ _ hb
+
+/-- The storage and the scalar state a build without VAR_CONFIG values produces. -/
+theorem build_spec (src : Source) (fr : Runtime) (h : build src = some fr)
+    (hci : src.configInits = []) (hnd : (src.globals.map (·.name)).Nodup) :
+    ∃ s1 s2, resetGlobals src.fbDefs false [] {} (src.globals.map GlobalDecl.toMeta) = .ok s1 ∧
+      recreatePrograms src.fbDefs s1 (src.programs.map ProgDecl.toDef) = .ok s2 ∧
+      fr.storage = s2 ∧ fr.globalsMeta = src.globals.map GlobalDecl.toMeta ∧
+      fr.fbs = src.fbDefs ∧ fr.programs = src.programs.map ProgDecl.toDef ∧
+      fr.time = 0 ∧ fr.fault = none ∧ fr.cycleCounter = 0 ∧
+      fr.taskState = src.tasks.map (fun t => registerTaskState s2 0 t.single) ∧
+      fr.io.inputs = [] ∧ fr.io.outputs = [] ∧ fr.io.memory = [] := by
+  unfold build at h
+  simp only at h
+  cases hb : buildGlobals src.fbDefs {} src.globals with
+  | error e => rw [hb] at h; cases h
+  | ok s1 =>
+    rw [hb] at h
+    dsimp only at h
+    cases hp : buildPrograms src.fbs src.fbDefs s1 src.programs with
+    | error e => rw [hp] at h; cases h
+    | ok r =>
+      obtain ⟨s2, pb⟩ := r
+      rw [hp] at h
+      dsimp only at h
+      rw [hci] at h
+      simp only [applyConfigInits] at h
+      split at h
+      · cases h
+      · injection h with h
+        have hb' := hb
+        rw [buildGlobals_eq] at hb'
+        have hnd' : ((src.globals.map GlobalDecl.toMeta).map (·.name)).Nodup := by
+          simpa [List.map_map, GlobalDecl.toMeta, Function.comp_def] using hnd
+        obtain ⟨_, _, g3⟩ := resetGlobals_spec src.fbDefs false [] _ {} s1 hb' hnd'
+        refine ⟨s1, s2, hb', buildPrograms_storage _ _ _ _ _ _ hp, ?_, ?_, ?_, ?_, ?_, ?_, ?_, ?_, ?_, ?_, ?_⟩
+        · rw [← h]
+        · rw [← h]
+          simp only
+          apply List.map_congr_left
+          intro g hgm
+          have post := g3 g.toMeta (List.mem_map.2 ⟨g, hgm, rfl⟩)
+          unfold GlobalPost at post
+          simp only [Bool.false_and, Bool.false_eq_true, if_false, GlobalDecl.toMeta] at post
+          simp only [GlobalDecl.toMeta]
+          cases hi : g.init with
+          | value v => simp only [hi] at post; simp [post]
+          | fb ty => rfl
+        all_goals (rw [← h])
+
+/-- The declarations a build records (no hypothesis on names needed for the program part). -/
+theorem build_spec_meta (src : Source) (fr : Runtime) (h : build src = some fr) :
+    fr.fbs = src.fbDefs ∧ fr.programs = src.programs.map ProgDecl.toDef ∧ fr.time = 0 ∧
+    fr.fault = none ∧ fr.cycleCounter = 0 ∧
+    (fr.globalsMeta.map (·.name)) = src.globals.map (·.name) ∧ fr.retain = none := by
+  unfold build at h
+  simp only at h
+  cases hb : buildGlobals src.fbDefs {} src.globals with
+  | error e => rw [hb] at h; cases h
+  | ok s1 =>
+    rw [hb] at h
+    dsimp only at h
+    cases hp : buildPrograms src.fbs src.fbDefs s1 src.programs with
+    | error e => rw [hp] at h; cases h
+    | ok r =>
+      obtain ⟨s2, pb⟩ := r
+      rw [hp] at h
+      dsimp only at h
+      cases hc : applyConfigInits s2 src.configInits with
+      | none => rw [hc] at h; cases h
+      | some s3 =>
+        rw [hc] at h
+        dsimp only at h
+        split at h
+        · cases h
+        · injection h with h
+          subst h
+          simp [List.map_map, Function.comp_def]
+
 /-! ### concrete witnesses (the harness replays the same projects on the real runtime, cases 0-5) -/
 
 namespace W
